@@ -23,7 +23,7 @@ use ec_linear::{
     recombinator::uniform_xo::UniformXo,
 };
 use push::{
-    genome::plushy::{ConvertToGeneGenerator, Plushy, PushGene},
+    genome::plushy::{ConvertToGeneGenerator, GeneGenerator, Plushy, PushGene},
     instruction::{IntInstruction, PushInstruction},
 };
 use rand::{distr::Distribution, Rng};
@@ -363,8 +363,19 @@ impl Distribution<PushInstruction> for Skewed {
     }
 }
 
-fn gene_config(n_instr: usize, close: Option<f32>, skewed: bool, via_plushy: bool, n: u64, seed: u64, rep: &mut Report) {
-    let cfg = format!("GeneGenerator instructions={n_instr} close={close:?} skewed={skewed} via={}", if via_plushy { "Plushy collection" } else { "direct" });
+/// How the gene generator under test is constructed: every public constructor is a separate
+/// code path (owning / borrowing, explicit / default close probability).
+const GENE_CTORS: [&str; 6] = [
+    "GeneGenerator::new",
+    "into_gene_generator_with_close_probability",
+    "to_gene_generator_with_close_probability",
+    "GeneGenerator::with_uniform_close_probability",
+    "into_gene_generator",
+    "to_gene_generator",
+];
+
+fn gene_config(n_instr: usize, close: Option<f32>, skewed: bool, via_plushy: bool, ctor: usize, n: u64, seed: u64, rep: &mut Report) {
+    let cfg = format!("GeneGenerator instructions={n_instr} close={close:?} skewed={skewed} ctor={} via={}", GENE_CTORS[ctor], if via_plushy { "Plushy collection" } else { "direct" });
     let mut rng = TraceRng::derive(seed, "C12-genes", fnv_str(&cfg));
     let instrs: Vec<PushInstruction> = (0..n_instr as i64).map(PushInstruction::push_int).collect();
     let mut closes = 0u64;
@@ -378,53 +389,47 @@ fn gene_config(n_instr: usize, close: Option<f32>, skewed: bool, via_plushy: boo
             other => rep.violation("C12/gene-not-from-distribution", || json!({"gene": format!("{other:?}")})),
         }
     };
-    let p_close;
+    fn drive<D: Distribution<PushGene>>(gg: D, via_plushy: bool, n: u64, rng: &mut TraceRng, rep: &mut Report, record: &mut dyn FnMut(&PushGene, &mut Report)) {
+        if via_plushy {
+            let cg = gg.into_collection_generator(16);
+            for _ in 0..n / 16 {
+                let pl: Plushy = cg.sample(rng);
+                for g in pl.get_genes() {
+                    rep.eval();
+                    record(&g, rep);
+                }
+            }
+        } else {
+            for _ in 0..n {
+                rep.eval();
+                let g: PushGene = gg.sample(rng);
+                record(&g, rep);
+            }
+        }
+    }
+    let explicit = ctor < 3;
+    let c = close.unwrap_or(0.25);
+    let p_close = if explicit { f64::from(c) } else { 1.0 / (n_instr as f64 + 1.0) };
     let q: Vec<f64>;
     if skewed {
         let d = Skewed { instrs: instrs.clone(), calls: Cell::new(0) };
-        let c = close.unwrap_or(0.25);
-        p_close = f64::from(c);
         let tot: f64 = (1..=n_instr).map(|x| x as f64).sum();
         q = (0..n_instr).map(|j| (j + 1) as f64 / tot).collect();
-        let gg = d.into_gene_generator_with_close_probability(c);
-        for _ in 0..n {
-            rep.eval();
-            let g: PushGene = gg.sample(&mut rng);
-            record(&g, rep);
+        match ctor {
+            0 => drive(GeneGenerator::new(c, d), via_plushy, n, &mut rng, rep, &mut record),
+            1 => drive(d.into_gene_generator_with_close_probability(c), via_plushy, n, &mut rng, rep, &mut record),
+            _ => drive(d.to_gene_generator_with_close_probability(c), via_plushy, n, &mut rng, rep, &mut record),
         }
     } else {
         let d = instrs.clone().into_distribution().expect("non-empty");
         q = vec![1.0 / n_instr as f64; n_instr];
-        match close {
-            Some(c) => {
-                p_close = f64::from(c);
-                let gg = d.into_gene_generator_with_close_probability(c);
-                if via_plushy {
-                    let cg = gg.into_collection_generator(16);
-                    for _ in 0..n / 16 {
-                        let pl: Plushy = cg.sample(&mut rng);
-                        for g in pl.get_genes() {
-                            rep.eval();
-                            record(&g, rep);
-                        }
-                    }
-                } else {
-                    for _ in 0..n {
-                        rep.eval();
-                        let g: PushGene = gg.sample(&mut rng);
-                        record(&g, rep);
-                    }
-                }
-            }
-            None => {
-                p_close = 1.0 / (n_instr as f64 + 1.0);
-                let gg = d.into_gene_generator();
-                for _ in 0..n {
-                    rep.eval();
-                    let g: PushGene = gg.sample(&mut rng);
-                    record(&g, rep);
-                }
-            }
+        match ctor {
+            0 => drive(GeneGenerator::new(c, d), via_plushy, n, &mut rng, rep, &mut record),
+            1 => drive(d.into_gene_generator_with_close_probability(c), via_plushy, n, &mut rng, rep, &mut record),
+            2 => drive(d.to_gene_generator_with_close_probability(c), via_plushy, n, &mut rng, rep, &mut record),
+            3 => drive(GeneGenerator::with_uniform_close_probability(d), via_plushy, n, &mut rng, rep, &mut record),
+            4 => drive(d.into_gene_generator(), via_plushy, n, &mut rng, rep, &mut record),
+            _ => drive(d.to_gene_generator(), via_plushy, n, &mut rng, rep, &mut record),
         }
     }
     let mut t = Table::new(cfg);
@@ -441,7 +446,7 @@ enum Cfg {
     UmadEmpty(u8, f64, f64),
     Uniform(usize, usize),
     Bits(usize, f64, usize),
-    Gene(usize, Option<f32>, bool, bool),
+    Gene(usize, Option<f32>, bool, bool, usize),
     UniformLags(usize, usize),
     FlipLags(usize, usize),
 }
@@ -495,13 +500,20 @@ pub fn run(args: &Args) -> i32 {
     for kind in 0..4 {
         cfgs.push(Cfg::FlipLags(kind, 130));
     }
-    for n_instr in 1..=8usize {
-        cfgs.push(Cfg::Gene(n_instr, None, false, false));
+    // default close probability 1/(n+1): every default-probability constructor x n = 1..8 (+ larger sets)
+    for ctor in 3..6usize {
+        for n_instr in [1usize, 2, 3, 4, 5, 6, 7, 8, 15, 16, 31] {
+            cfgs.push(Cfg::Gene(n_instr, None, false, n_instr == 3, ctor));
+        }
     }
-    for c in [0.0f32, 0.1, 0.5, 1.0] {
-        cfgs.push(Cfg::Gene(4, Some(c), false, false));
-        cfgs.push(Cfg::Gene(5, Some(c), true, false));
-        cfgs.push(Cfg::Gene(3, Some(c), false, true));
+    // explicit close probability: every explicit constructor, uniform and skewed instruction distributions
+    for ctor in 0..3usize {
+        for c in [0.0f32, 0.1, 0.5, 1.0] {
+            cfgs.push(Cfg::Gene(4, Some(c), false, false, ctor));
+            cfgs.push(Cfg::Gene(5, Some(c), true, false, ctor));
+            cfgs.push(Cfg::Gene(3, Some(c), false, true, ctor));
+        }
+        cfgs.push(Cfg::Gene(2, Some(0.37), true, true, ctor));
     }
     let mut rep = run_shards(cfgs.len(), args.threads, 16 << 20, |i| {
         let mut rep = Report::new();
@@ -511,7 +523,7 @@ pub fn run(args: &Args) -> i32 {
             Cfg::UmadEmpty(c, a, e) => umad_empty_config(*c, *a, *e, n, args.seed, &mut rep),
             Cfg::Uniform(fl, len) => uniform_config(*fl, *len, n / (*len as u64).clamp(1, 8), args.seed, &mut rep),
             Cfg::Bits(w, p, len) => bitstring_config(*w, *p, *len, n / (*len as u64).clamp(1, 8), args.seed, &mut rep),
-            Cfg::Gene(k, c, s, v) => gene_config(*k, *c, *s, *v, n, args.seed, &mut rep),
+            Cfg::Gene(k, c, s, v, ctor) => gene_config(*k, *c, *s, *v, *ctor, n / 2, args.seed, &mut rep),
             Cfg::UniformLags(fl, len) => uniform_xo_lags("C12/uniform-xo", *fl, *len, n / 10, args.seed, &mut rep),
             Cfg::FlipLags(kind, len) => flip_lags(*kind, *len, n / 10, args.seed, &mut rep),
         }
@@ -526,7 +538,7 @@ pub fn run(args: &Args) -> i32 {
     rep.finish(
         args,
         "exploration",
-        "rate grid incl. 0 and 1 (exact) x genome lengths 1..64 x the stated number of seeded samples per configuration for bit-flip mutators (Vec<bool>, Bitstring), UMAD (tagged Vector; three constructors on the empty genome), uniform crossover (four flavours), Bitstring::random / random_with_probability / BoolGenerator, GeneGenerator (1..8 instructions default close probability; explicit close probabilities; uniform and skewed instruction distributions; direct and through a Plushy collection generator). distinct_nontrivial = distinct configurations",
+        "rate grid incl. 0 and 1 (exact) x genome lengths 1..64 x the stated number of seeded samples per configuration for bit-flip mutators (Vec<bool>, Bitstring), UMAD (tagged Vector; three constructors on the empty genome), uniform crossover (four flavours), Bitstring::random / random_with_probability / BoolGenerator, GeneGenerator (all six public constructors, owning and borrowing; 1..31 instructions default close probability; explicit close probabilities; uniform and skewed instruction distributions; direct and through a Plushy collection generator). distinct_nontrivial = distinct configurations",
         false,
         &[
             "a bias below the stated resolution is invisible to this monitor",
